@@ -433,6 +433,11 @@ func GenStream(t *rt.Tape, o Opts) []Segment {
 					segs = append(segs, sg)
 				}
 			}
+			if !o.NoSiblings && o.MaxPayload == 0 && t.SW(7, 1) == 1 {
+				// followed (not necessarily at once) by a frame that carries the beginning
+				// of an earlier frame of this stream inside its payload
+				segs = append(segs, EchoFrame(t, segs))
+			}
 		case 1:
 			segs = append(segs, GenJunk(t))
 		default:
@@ -445,6 +450,47 @@ func GenStream(t *rt.Tape, o Opts) []Segment {
 		segs = append(segs, Segment{Kind: KindTail, Bytes: f[:k]})
 	}
 	return segs
+}
+
+// EchoFrame draws a valid frame whose payload holds, somewhere after its own
+// type, the first bytes (leader, type, a little more, or everything) of a frame
+// that came earlier in the same stream.  Real streams repeat themselves: the
+// same message types from the same station come round every second, and binary
+// payloads now and then contain what looks like the start of another message.
+// Anything that remembers what it has seen (a resynchronisation heuristic, a
+// cache keyed by a frame's first bytes) is sensitive to exactly that, and
+// independently drawn payloads practically never produce it.
+func EchoFrame(t *rt.Tape, earlier []Segment) Segment {
+	var frames [][]byte
+	for _, sg := range earlier {
+		if sg.Kind == KindFrame {
+			frames = append(frames, sg.Bytes)
+		}
+	}
+	src := frames[t.S(len(frames))]
+	k := []int{3, 4, 5, 6, 8, 12, len(src)}[t.S(7)]
+	if k > len(src) {
+		k = len(src)
+	}
+	if k > 1000 {
+		k = 1000
+	}
+	typ := GenType(t, false)
+	off := 2 + t.S(12)
+	n := off + k + t.S(12)
+	if n > 1023 {
+		n = 1023
+		off = n - k
+	}
+	p := make([]byte, n)
+	for i := range p {
+		p[i] = byte(t.S(256))
+	}
+	copy(p[off:], src[:k])
+	p[0] = byte(typ >> 4)
+	p[1] = p[1]&0x0F | byte(typ&0xF)<<4
+	f := Frame(p)
+	return Segment{Kind: KindFrame, Bytes: f, Type: TypeOf(f)}
 }
 
 // GenBulk draws a long stream of many tiny messages (alternating 1-byte junk and
